@@ -28,7 +28,7 @@ ASSUMPTIONS = [
     "don't-care pairs (bool against float/complex, Any, Literal containing 1 vs True/1.0, str against Sequence) give no verdict",
     "with the switch off, non-node values in child fields are outside the statement (the digest needs child nodes); property fields accept any value",
 ]
-MUST_SEE = ["false_vs_bool", "bool_vs_int", "bool_vs_int_union", "bool_in_int_tuple", "fixed_tuple_too_long", "fixed_tuple_too_short", "multi_two_bad", "noninit_bad_default", "switch_off_same_node", "nonconforming", "conforming"]
+MUST_SEE = ["false_vs_bool", "bool_vs_int", "bool_vs_int_union", "bool_in_int_tuple", "fixed_tuple_too_long", "fixed_tuple_too_short", "multi_two_bad", "noninit_bad_default", "switch_off_same_node", "nonconforming", "conforming", "noncompare_fields_checked"]
 CONFIG = {
     "quick": {"shards": 16, "d2_sample": 25, "multi": 40, "watchdog_s": 600},
     "thorough": {"shards": 32, "d2_sample": 400, "multi": 600, "watchdog_s": 3400},
@@ -179,7 +179,13 @@ def run_shard(ctx):
         nf = mr.randint(3, 5)
         anns = [mr.choice(acc) for _ in range(nf)]
         T = f"{P}M{m}"
-        src = f"@dataclass(frozen=True)\nclass {T}(ASTNode):\n" + "".join(f"    f{i}: {AG.render(a, P)}\n" for i, a in enumerate(anns))
+        # some fields are declared compare=False: they are type-checked like any other field
+        ncmp = [mr.random() < 0.3 for _ in anns]
+        if any(ncmp):
+            ctx.count("noncompare_fields_checked")
+        src = f"@dataclass(frozen=True)\nclass {T}(ASTNode):\n" + "".join(
+            f"    f{i}: {AG.render(a, P)}" + (" = field(compare=False, kw_only=True)\n" if ncmp[i] else "\n") for i, a in enumerate(anns)
+        )
         # an init=False field whose default is ill-typed / well-typed
         bad_default = mr.random() < 0.5
         src += f"    z: int = field(default={'\"bad\"' if bad_default else '3'}, init=False)\n"
